@@ -107,6 +107,63 @@ OPS = ["del", "ins", "rep", "fdrop", "fdup"]
 DOC_OPS = ["del", "ins", "rep", "fdrop", "fdup", "ldrop", "ldup"]
 
 
+def _cross():
+    """hand-enumerated probes of the cross-field and document-level rules (verdict still from the recogniser)"""
+    X = []
+    # LN against the sequence length
+    for seq in ("*", "A", "ACGT"):
+        for ln in (0, 1, 4, 5):
+            X.append(("line", "gfa1", None, "S\tA\t%s\tLN:i:%d" % (seq, ln)))
+    # path: number of overlaps against number of segments
+    for n in (1, 2, 3):
+        for k in (1, 2, 3, 4):
+            for c in ("*", "1M"):
+                X.append(("line", "gfa1", None, "P\tp\t%s\t%s" % (",".join("ABC"[i] + "+" for i in range(n)), ",".join([c] * k))))
+    # begin <= end, `$`
+    S2 = ["S\tA\t4\tACGT", "S\tB\t5\t*"]
+    vals = ["0", "2", "4", "4$", "5", "5$", "2$", "0$"]
+    for sid, other in (("A", "B"), ("B", "A")):
+        for b in vals:
+            for e in vals:
+                el = "E\t*\t%s+\t%s-\t%s\t%s\t0\t1\t*" % (sid, other, b, e)
+                er = "E\t*\t%s+\t%s-\t0\t1\t%s\t%s\t*" % (other, sid, b, e)
+                fl = "F\t%s\tr+\t%s\t%s\t0\t1\t*" % (sid, b, e)
+                fr = "F\t%s\tr+\t0\t1\t%s\t%s\t*" % (sid, b, e)
+                for l in (el, er, fl, fr):
+                    X.append(("doc", "gfa2", "standard", "\n".join(S2 + [l])))
+                if sid == "A":
+                    for l in (el, er, fl, fr):
+                        X.append(("line", "gfa2", None, l))
+    # undefined references, field by field
+    for l in ("L\tA\t+\tX\t-\t*", "L\tX\t+\tA\t-\t*", "C\tA\t+\tX\t-\t0\t*", "C\tX\t+\tA\t-\t0\t*", "P\tp\tA+,X+\t*",
+              "P\tp\tX+\t*", "L\tA\t+\tB\t-\t*"):
+        X.append(("doc", "gfa1", "standard", "\n".join(["S\tA\t*", "S\tB\t*", l])))
+    for l in ("E\t*\tA+\tX-\t0\t1\t0\t1\t*", "E\t*\tX+\tA-\t0\t1\t0\t1\t*", "G\t*\tA+\tX-\t1\t1", "G\t*\tX+\tA-\t1\t1",
+              "F\tX\tr+\t0\t1\t0\t1\t*", "O\t*\tA+ X+", "O\t*\tX+", "U\t*\tA X", "U\t*\tX", "U\t*\tA B", "O\to\tA+ B-"):
+        X.append(("doc", "gfa2", "standard", "\n".join(["S\tA\t4\t*", "S\tB\t4\t*", l])))
+    # versions: records and VN of the other version
+    X.append(("doc", "gfa1", "standard", "H\tVN:Z:2.0\nS\tA\t*"))
+    X.append(("doc", "gfa2", "standard", "H\tVN:Z:1.0\nS\tA\t1\t*"))
+    X.append(("doc", None, "standard", "H\tVN:Z:1.0\nS\tA\t1\t*"))
+    X.append(("doc", None, "standard", "H\tVN:Z:2.0\nS\tA\t*"))
+    X.append(("doc", None, "standard", "S\tA\t*\nS\tB\t1\t*"))
+    X.append(("doc", None, "standard", "S\tA\t*\nE\t*\tA+\tA-\t0\t1\t0\t1\t*"))
+    X.append(("doc", None, "standard", "S\tA\t1\t*\nL\tA\t+\tA\t-\t*"))
+    X.append(("doc", "gfa1", "standard", "S\tA\t*\n"))
+    X.append(("doc", "gfa2", "standard", "S\tA\t1\t*\n"))
+    # rGFA
+    R = BASE_DOCS[2][2]
+    for extra in ("H\tVN:Z:1.0", "C\ts1\t+\ts2\t+\t0\t0M", "P\tp\ts1+,s2+\t0M", "# c", "S\ts3\t*\tSN:Z:c\tSO:i:0", "S\ts3\t*\tSN:Z:c\tSO:i:0\tSR:Z:0",
+                  "S\ts3\t*\tSN:i:1\tSO:i:0\tSR:i:0", "L\ts2\t+\ts1\t+\t1M", "L\ts2\t+\ts1\t+\t*", "L\ts2\t+\ts1\t+\t0M\tL1:Z:x",
+                  "S\ts3\tA\tSN:Z:c\tSO:i:0\tSR:i:1"):
+        X.append(("doc", "gfa1", "rgfa", "\n".join(R + [extra])))
+    X.append(("doc", "gfa2", "rgfa", "S\ts1\t3\tACG\tSN:Z:chr1\tSO:i:0\tSR:i:0"))
+    return X
+
+
+CROSS = _cross()
+
+
 def maxlen(tier):
     return 4 if tier == "thorough" else 3
 
@@ -137,6 +194,9 @@ def _ex_plan(tier):
         for v in (1, 2, 3):
             for c in range(0, tot, CHUNK):
                 plan.append({"kind": "posx", "ctx": ctx, "vlevel": v, "from": c, "to": min(tot, c + CHUNK), "n": n})
+    for v in (1, 2, 3):
+        for c in range(0, len(CROSS), 40):
+            plan.append({"kind": "cross", "vlevel": v, "from": c, "to": min(len(CROSS), c + 40)})
     nalpha = len(MUT_ALPHA) if tier == "thorough" else 5
     for b in range(len(BASE_LINES)):
         for v in (1, 2, 3):
@@ -516,6 +576,9 @@ def offered(case):
         lv = ver if case["vmode"] == "given" else None
         for t in iter_line_mutations("\n".join(lines), case["op"], case["nalpha"], case["from"], case["to"]):
             out.append(("doc", t, lv, lv, dia))
+    elif k == "cross":
+        for what, ver, dia, text in CROSS[case["from"]:case["to"]]:
+            out.append((what, text, ver, ver, dia))
     elif k == "line":
         lv = case["version"] if case["vmode"] == "given" else None
         out.append(("line", case["text"], lv, lv, None))
